@@ -1650,7 +1650,8 @@ def check_reassembly(args):
             p.ttl, p.dscp = (hdr["ttl"] + i) % 256, (hdr["dscp"] + i) % 256
         p.flags = (1 if i + 1 < len(cuts) else 0) | (2 if args.get("df") else 0)     # MF, and DF as captured traffic has it
         p.fragment_offset = c
-        p.payload = x[c:end]
+        # `mutable`: the payloads are bytearrays (fragments decoded from a receive buffer): still the caller's objects
+        p.payload = bytearray(x[c:end]) if args.get("mutable") else x[c:end]
         if args.get("via_bytes"):
             q = se.IP()
             q.unpack(p.pack())
@@ -1726,6 +1727,8 @@ def oracles_C16(ctx, hints):
         hdr = {"srcip": addr(rng)[1:], "dstip": addr(rng)[1:], "protocol": rng.boundary(8), "dscp": rng.boundary(8), "id": rng.boundary(16), "ttl": rng.boundary(8)}
         args = {"x": x.hex(), "cuts": cuts, "perm": perm, "hdr": hdr, "vary": True, "via_bytes": rng.random() < 0.5,
                 "df": rng.random() < 0.3}
+        if rng.random() < 0.25:
+            args.update({"via_bytes": False, "mutable": True, "twice": True})
         n += 1
         w = check_reassembly(args)
         if w:
@@ -1741,7 +1744,7 @@ def oracles_C16(ctx, hints):
         rng.shuffle(perm)
         hdr = {"srcip": addr(rng)[1:], "dstip": addr(rng)[1:], "protocol": 17, "dscp": 0, "id": rng.boundary(16), "ttl": 64}
         args = {"x": rng._raw(total).hex(), "cuts": cuts, "perm": perm, "hdr": hdr, "vary": False, "via_bytes": total % 2 == 1,
-                "df": False, "twice": True}
+                "df": False, "twice": True, "mutable": total % 3 == 0 and total % 2 == 0}
         n += 1
         w = check_reassembly(args)
         if w:
